@@ -36,6 +36,7 @@ pub fn run(name: &str, raw: &[u8]) -> Option<u32> {
         "dec_words" => dec::dec_words::<{ dec::BUF }>(v),
         "dec_bit64" => dec::dec_bit64::<{ dec::BUF }>(v),
         "dec_string" => dec::dec_string::<{ dec::BUF }>(v),
+        "dec_string_mid" => dec::dec_string::<{ dec::BUF_MID }>(v),
         "dec_string_small" => dec::dec_string::<{ dec::BUF_SMALL }>(v),
         "dec_limit" => dec::dec_limit::<{ dec::BUF }>(v),
         "dec_typed" => dec::dec_typed::<{ dec::BUF }>(v),
